@@ -833,6 +833,9 @@ fn model_sized(large: bool) -> BoxedStrategy<Model> {
                         (1, 5) => "SIG_0".to_string(),
                         (0, 1) | (0, 2) => codings.first().map(|c| c.0.clone()).unwrap_or_else(|| "CODING_0".to_string()),
                         (0, 3) => "SIG_0".to_string(),
+                        // a reference to a coding that no file defines, spelled like a base data type
+                        (2, 10) => "A_UINT32".to_string(),
+                        (3, 10) => "A_FLOAT64".to_string(),
                         _ => format!("CODING_{}", c),
                     };
                     (sig_name(i), r)
